@@ -1,0 +1,13 @@
+//go:build verif
+
+package json
+
+// Machine-checked contracts for package json (comment-only; see klog/contracts_verif.go).
+
+// toErrorViews: one view per error, in order, carrying the error's own line, column, length (property C20/C10).
+//@ func toErrorViews
+//@ requires forall(i, 0, len(errs), typeis(errs[i], *txt.err))
+//@ ensures len(result) == len(errs)
+//@ ensures forall(i, 0, len(errs), result[i].Line == errs[i].(*txt.err).context.(*txt.block).precedingLineCount + errs[i].(*txt.err).line + 1 && result[i].Column == errs[i].(*txt.err).position + 1 && result[i].Length == errs[i].(*txt.err).length)
+//@ loop 1 invariant len(result) == rangeindex + 1
+//@ loop 1 invariant forall(i, 0, rangeindex+1, result[i].Line == errs[i].(*txt.err).context.(*txt.block).precedingLineCount + errs[i].(*txt.err).line + 1 && result[i].Column == errs[i].(*txt.err).position + 1 && result[i].Length == errs[i].(*txt.err).length)
